@@ -1,1 +1,72 @@
-def install(e): pass
+"""roaring::RoaringBitmap as a 32-bit bit-vector (exact for < 32 members; the harnesses use <= 6)."""
+import z3, re
+from .engine import *
+from .models import M, model, deref, d1, unguard, It, it_list, some, as_it
+
+W = 32
+LOCAL = {}
+def lmodel(*names):
+    def deco(f):
+        f.model_name = 'roaring:' + names[0]
+        for n in names: LOCAL[n] = f
+        return f
+    return deco
+
+def bv(x): return x if is_sym(x) else z3.BitVecVal(x, W)
+def nbits(e): return getattr(e, 'ng_nv', 8)
+def bit(x, i):
+    return (z3.Extract(i, i, x) == 1) if is_sym(x) else bool((x >> i) & 1)
+def popcount(e, x):
+    if not is_sym(x): return bin(x).count('1')
+    return z3.Sum([z3.ZeroExt(63, z3.Extract(i, i, x)) for i in range(nbits(e))])
+
+@lmodel('<RoaringBitmap as Default>::default', 'RoaringBitmap::new', 'inherent::new')
+def _new(e, c, a): return 0
+def bop(name, f):
+    def m(e, c, a):
+        x, y = deref(a[0]), deref(a[1])
+        if is_sym(x) or is_sym(y): return z3.simplify(f(bv(x), bv(y)))
+        return f(x, y)
+    m.model_name = 'roaring:' + name
+    LOCAL['BitAnd::bitand' if name == 'bitand' else 'BitOr::bitor' if name == 'bitor' else 'BitXor::bitxor'] = m
+bop('bitand', lambda x, y: x & y); bop('bitor', lambda x, y: x | y); bop('bitxor', lambda x, y: x ^ y)
+@lmodel('BitXorAssign::bitxor_assign')
+def _bxa(e, c, a):
+    r = a[0]; y = deref(a[1]); x = r.get()
+    r.set(z3.simplify(bv(x) ^ bv(y)) if is_sym(x) or is_sym(y) else x ^ y); return UNIT
+@lmodel('inherent::len')
+def _len(e, c, a): return popcount(e, deref(a[0]))
+@lmodel('inherent::is_empty')
+def _is_empty(e, c, a):
+    x = deref(a[0]); return (x == 0)
+@lmodel('inherent::contains')
+def _contains(e, c, a):
+    x = deref(a[0]); i = e.concretize(a[1])
+    if i >= W: return False
+    return bit(x, i)
+@lmodel('inherent::insert')
+def _insert(e, c, a):
+    r = a[0]; x = r.get(); i = e.concretize(a[1])
+    if i >= W: raise Unsupported('bitmap model: member >= 32')
+    had = e.branch(bit(x, i))
+    r.set(z3.simplify(bv(x) | (1 << i)) if is_sym(x) else x | (1 << i)); return not had
+@lmodel('inherent::remove')
+def _remove(e, c, a):
+    r = a[0]; x = r.get(); i = e.concretize(a[1])
+    if i >= W: return False
+    had = e.branch(bit(x, i))
+    r.set(z3.simplify(bv(x) & ~(1 << i)) if is_sym(x) else x & ~(1 << i)); return had
+@lmodel('inherent::min')
+def _min(e, c, a):
+    x = deref(a[0])
+    for i in range(nbits(e)):
+        if e.branch(bit(x, i)): return Some(i)
+    if is_sym(x):
+        if e.branch(x != 0): raise Unsupported('bitmap model: member beyond ng_nv')
+    elif x != 0: raise Unsupported('bitmap model: member beyond ng_nv')
+    return NONE()
+@lmodel('<RoaringBitmap as Clone>::clone')
+def _clone(e, c, a): return deref(a[0])
+
+def install(e):
+    e.models.update(LOCAL)
